@@ -136,7 +136,11 @@ PROPS.update({
             "rule": WORLD_RULE + " Second suite (single-fault enumeration): fault-free base conversations (honest data evolution only) are run once to "
             "learn, per scripted exchange, the number of transport receive calls, PDUs and bytes of the answer; then the conversation is re-run with exactly "
             "one fault: every receive call x {error, EINTR}, the query's send x {error, EINTR, would-block}, every PDU position x 18 protocol deviations, "
-            "cuts at 25 byte offsets x {close, stall}, hang-up, silence, Cache Reset (thorough: all points of every base; quick: a stratified sample).",
+            "cuts at 25 byte offsets x {close, stall}, hang-up, silence, Cache Reset (thorough: all points of every base; quick: a stratified sample). "
+            "Third suite (aligned pairs): two caches of one group with equal timers; cache 0 goes through reloads while cache 1 changes its data at every "
+            "poll, and the simulated network holds back the last bytes of one answer until the other socket has read the answer it is about to apply "
+            "(rendezvous delay, bounded), so that both socket threads apply at the same instant and the scheduler interleaves them: 'records learned "
+            "from other caches are never altered' under every interleaving of two synchronisations.",
             "suites": [_world("C03", runs_quick=900, time_quick=25),
                        _world("C03", name="world-C03-pair", opts={"focus": "C03", "pair": 1}, runs_quick=500, time_quick=15, runs_thorough=40000, time_thorough=300),
                        {"name": "world-C03-sweep", "kind": "faultsweep", "scn": "world", "variant": "asan", "opts": {"focus": "C03", "single": 1, "clean": 1, "maxx": 5},
